@@ -113,6 +113,11 @@ def main(argv):
         if i % 3 == 0:
             b = GB.gen_case(rng)
             c, info = {'file': b['file'], 'cfg': b['cfg']}, None
+            if i % 2 == 0:
+                # single-fault variations that concern WHICH declaration a name denotes: ambiguity (also across kinds), wrong kind
+                named = [f for f in GB.faults(rng, b) if any(x in f[0] for x in ('ambiguous', 'wrong-kind', 'unresolvable', 'duplicate'))]
+                if named:
+                    c = {'file': named[i // 2 % len(named)][1]['file'], 'cfg': named[i // 2 % len(named)][1]['cfg']}
         else:
             c, info = scoping_case(rng)
         cases.append(c)
@@ -124,6 +129,24 @@ def main(argv):
         d['file'] = d['file'][:pos] + extra + d['file'][pos:]
         cases.append(d)
         kinds.append('with-unrelated')
+    # multi-client configurations whose claim reply type is ambiguous / fine, as pairs like the others
+    found, tries = 0, 0
+    while found < (4 if tier == 'quick' else 40) and tries < 4000:
+        tries += 1
+        b = GB.gen_case(rng)
+        if not b['cfg']['ports'].get('mc'):
+            continue
+        amb = [f for f in GB.faults(rng, b) if f[0] == 'mc-claim-reply-ambiguous']
+        if not amb:
+            continue
+        found += 1
+        for c in ({'file': amb[0][1]['file'], 'cfg': amb[0][1]['cfg']}, {'file': b['file'], 'cfg': b['cfg']}):
+            cases.append(c)
+            kinds.append('claim-reply')
+            d = copy.deepcopy(c)
+            d['file'] = d['file'] + decoys_for(c, None, rng)
+            cases.append(d)
+            kinds.append('with-unrelated')
     io, mo = BC.run_builds(cases, timeout=3000)
     nv = 0
     text_only, any_failing = [], False
